@@ -113,7 +113,8 @@ CALLBACKS = ['none', 'add:' + hdrs_field([(b'x-added', b'1'), (b'sec-websocket-p
              'rej:403:' + hx(b'who?') + ':' + hdrs_field([(b'www-authenticate', b'Basic realm=a'), (b'www-authenticate', b'Bearer'), (b'x-z', b'1')]),
              'rej:400:none:' + hdrs_field([(b'retry-after', b'1'), (b'retry-after', b'2')])]
 
-WPATS = [[], ['a:1'] * 5, ['e:wb', 'a:7', 'e:wb'], ['a:2', 'e:wb', 'e:wb', 'a:50'], ['e:intr'], ['e:other'], ['a:0'], ['e:wb', 'a:0']]
+WPATS = [[], ['a:1'] * 5, ['e:wb', 'a:7', 'e:wb'], ['a:2', 'e:wb', 'e:wb', 'a:50'], ['e:intr'], ['e:other'], ['a:0'], ['e:wb', 'a:0'],
+         ['a:20', 'e:wb', 'a:3', 'e:wb', 'e:wb'], ['a:60', 'e:wb'], ['a:1', 'e:wb'] * 4, ['a:10', 'e:intr', 'a:10', 'e:wb']]
 FPATS = [[], ['e:wb'], ['e:wb', 'e:wb', 'ok'], ['e:other'], ['e:intr']]
 
 # ---- client side ------------------------------------------------------------------------------------
